@@ -150,7 +150,16 @@ func init() {
 					mu.Unlock()
 					pc.Send(respFrame(f, 0, b))
 				case "unauth":
-					pc.Send(respFrame(f, 5, errBody(401, "session invalid")))
+					// the rejection's body varies with the connection: a well-formed error message, plain text that is no error message in
+					// the connection's codec, nothing at all — "rejected as unauthenticated" is the STATUS of the answer, whatever its body
+					switch pc.N % 3 {
+					case 0:
+						pc.Send(respFrame(f, 5, errBody(401, "session invalid")))
+					case 1:
+						pc.Send(respFrame(f, 5, []byte("session not found")))
+					default:
+						pc.Send(respFrame(f, 5, nil))
+					}
 				case "other":
 					pc.Send(respFrame(f, 7, errBody(7, "internal")))
 				case "drop":
